@@ -185,6 +185,28 @@ def vrel(a, b, tol):
     return bool(np.max(np.abs(a - b), initial=0.0) <= tol * sc)
 
 
+def relayout(a, layout):
+    """G7: the same numbers in another memory layout"""
+    if layout is None:
+        return a
+    if layout == "strided":
+        big = np.zeros(tuple(2 * k for k in a.shape), dtype=a.dtype)
+        sl = tuple(slice(None, None, 2) for _ in a.shape)
+        big[sl] = a
+        return big[sl]
+    if layout == "negstride":
+        sl = tuple(slice(None, None, -1) for _ in a.shape)
+        return np.ascontiguousarray(a[sl])[sl]
+    if layout == "fortran":
+        return np.asfortranarray(a) if a.ndim > 1 else a
+    if layout == "transposed-view":
+        return np.ascontiguousarray(a.T).T if a.ndim > 1 else a
+    if layout == "readonly":
+        b = a.copy(); b.flags.writeable = False
+        return b
+    return a
+
+
 def snap_arrays(d):
     return {k: (v.dtype.str, v.shape, v.tobytes()) for k, v in d.items() if isinstance(v, np.ndarray)}
 
@@ -313,6 +335,105 @@ def check_history(ctx, name, desc, build, new_prior=None, ops=("MAP", "MAP"), sa
         if changed:
             ctx.fail(f"{name}:history:sample_posterior:mutates:{changed[0]}", {**d, "changed": changed}, "components unchanged by sampling", changed,
                      "sample_posterior() changed what the test problem hands out")
+
+
+
+RETAINED = []      # G8: (label, returned object, copy at return time) — re-verified at the very end of the run
+
+
+def retain(label, arr):
+    try:
+        a = np.asarray(arr)
+        RETAINED.append((label, arr, a.copy()))
+    except Exception:
+        pass
+
+
+def retain_tp(name, tp):
+    for a in ("data", "exactData", "exactSolution"):
+        v = getattr(tp, a, None)
+        if v is not None:
+            retain(f"{name}|tp.{a}", v)
+
+
+def verify_retained(ctx):
+    bad = 0
+    for label, obj, cp in RETAINED:
+        try:
+            now = np.asarray(obj)
+            same = now.shape == cp.shape and (np.array_equal(now, cp) or (now.dtype.kind == "f" and np.array_equal(np.isnan(now), np.isnan(cp)) and np.array_equal(np.nan_to_num(now), np.nan_to_num(cp))))
+        except Exception:
+            same = False
+        if not same and bad < 5:
+            bad += 1
+            ctx.fail("retained-output-changed:" + label.split("|")[0], {"object": label}, "an array handed out earlier keeps its values", "changed later",
+                     "an earlier result was overwritten by a later call (shared internal buffer / view into a cache)")
+    ctx.case("retained-outputs", {"count": len(RETAINED)}, nontrivial=False)
+    RETAINED.clear()
+
+
+def check_forward_history(ctx, name, desc, build, x0, is_par=True, h=0.5, linear=False):
+    """G5/G7/G8 on model.forward of a test problem, implementation only: every evaluation on a reused, in-place modified
+    buffer, on other array layouts / subclasses of the same numbers, and on exact zeros must equal the evaluation of a
+    FRESHLY built identical problem at a fresh contiguous float64 copy of the current values."""
+    from cuqi.array import CUQIarray
+    with quiet():
+        tp = build()
+    kw = {} if is_par else {"is_par": False}
+    def fw(t, x):
+        with quiet():
+            return A1(t.model.forward(x, **kw))
+    def fresh(x):
+        with quiet():
+            tf = build()
+            return A1(tf.model.forward(np.array(x, dtype=float).copy(), **kw))
+    d = {**desc, "check": "forward-history", "is_par": is_par}
+    ctx.case("forward-history", d)
+    key = f"{name}:history:forward"
+    n = len(x0)
+    def cmp(tag, got, x):
+        ref = fresh(x)
+        if got.shape != ref.shape or not vrel(got, ref, 1e-10):
+            ctx.fail(f"{key}:{tag}", {**d, "x": [float(v) for v in np.asarray(x, dtype=float)[:8]]}, list(ref[:6]), list(got[:6]),
+                     f"model.forward differs from a freshly built identical problem at the same values ({tag})")
+            return False
+        return True
+    try:
+        xb = np.array(x0, dtype=float)
+        y0 = fw(tp, xb); retain(f"{name}|forward#0", y0); cmp("first", y0, xb)
+        for k, i in enumerate((0, n // 2, n - 1)):
+            xb[i] += h * (k + 1)                                   # in place, same buffer
+            y = fw(tp, xb); retain(f"{name}|forward#{k + 1}", y)
+            if not cmp("inplace", y, xb):
+                break
+        prev = xb.copy()
+        xb[:] = x0                                                 # back to the first values, in place
+        cmp("inplace-restore", fw(tp, xb), xb)
+        cmp("fresh-array-earlier-values", fw(tp, prev.copy()), prev)
+        # G7 layouts / subclasses / G1 lists of the same numbers
+        big = np.zeros(2 * n); big[::2] = x0
+        ro = np.array(x0, dtype=float); ro.flags.writeable = False
+        variants = [("strided", big[::2]), ("negative-stride", np.array(x0, dtype=float)[::-1][::-1]), ("read-only", ro), ("reversed-view", np.ascontiguousarray(np.array(x0, dtype=float)[::-1])[::-1])]
+        if is_par:
+            variants.append(("CUQIarray", CUQIarray(np.array(x0, dtype=float), geometry=tp.model.domain_geometry)))
+        if np.all(np.asarray(x0) == np.round(x0)):
+            variants += [("int64", np.array(x0).astype(np.int64)), ("list", [float(v) for v in x0])]
+        for tag, xv in variants:
+            try:
+                got = fw(tp, xv)
+            except Exception as e:
+                ctx.note(f"{name} forward refused layout {tag} at {desc}: {repr(e)[:80]}")
+                continue
+            cmp("layout:" + tag, got, np.asarray(xv, dtype=float))
+        if linear:
+            z = fw(tp, np.zeros(n))
+            if np.any(z != 0):
+                ctx.fail(f"{key}:zero", d, "forward(0) = 0 for a linear problem", list(z[:6]), "forward of the zero vector is not zero")
+    except Exception as e:
+        import traceback
+        if "/cuqi/" not in traceback.format_exc():
+            raise
+        ctx.fail(f"{key}:crash", d, "the evaluation history runs", repr(e)[:160], "model.forward raised inside an evaluation history")
 
 
 # ----------------------------------------------------------------------------- shared checks
@@ -471,12 +592,76 @@ def gen_psf1(rng, dim):
     return ("name", name, rng.choice([None, 1.0, 2.5, 0.75]), rng.choice([None, 3, 4, 5]))
 
 
+def doc_psf(name, size, param, ndim=1):
+    """Documented named PSFs, written independently of the implementation: a Gaussian (std = PSF_param) / Moffat
+    (beta = 1) profile sampled at the integer offsets from the array entry `size//2` — the entry at which
+    scipy.ndimage.convolve1d / the padded fftconvolve centre the kernel — normalised to sum 1.  `None`: no formula
+    documented (Defocus: leaf)."""
+    nm = name.lower()
+    if nm not in ("gauss", "moffat"):
+        return None
+    if param is None:
+        param = 10
+    x = np.arange(size, dtype=float) - (size // 2)
+    if ndim == 1:
+        r2 = x ** 2 / float(param) ** 2
+    else:
+        X, Y = np.meshgrid(x, x)
+        r2 = X ** 2 / float(param) ** 2 + Y ** 2 / float(param) ** 2
+    w = np.exp(-0.5 * r2) if nm == "gauss" else 1.0 / (1.0 + r2)
+    return w / w.sum()
+
+
+def doc_legacy_kernel(name, dim, param):
+    """documented legacy kernels in wrapped order (h[0] = centre), functions of the periodic distance min(k, n-k)/n"""
+    nm = name.lower()
+    k = np.arange(dim)
+    g = np.minimum(k, dim - k) / dim
+    if nm == "gauss":
+        return np.exp(-((10 if param is None else param) * g) ** 2)
+    if nm in ("sinc", "prolate"):
+        return np.sinc((15 if param is None else param) * g)
+    if nm == "vonmises":
+        h = np.exp(np.cos(2 * np.pi * g))
+        return (h / h[0]) ** (5 if param is None else param)
+    return None
+
+
+def psf_structure_oracle(ctx, key, desc, P):
+    """what every Gauss / Moffat PSF must satisfy whatever its formula: normalised, non-negative, peak on the entry
+    size//2 on which the convolution centres the kernel, symmetric about it (odd sizes: the whole array)"""
+    P = np.asarray(P, dtype=float)
+    n = P.shape[0]
+    c = n // 2
+    probs = []
+    if not close(float(P.sum()), 1.0, 1e-12):
+        probs.append(f"sum {float(P.sum())}")
+    if np.any(P < 0):
+        probs.append("negative weight")
+    peak = np.unravel_index(int(np.argmax(P)), P.shape)
+    if any(int(k) != c for k in peak):
+        probs.append(f"peak at {tuple(int(k) for k in peak)}, kernel centre {c}")
+    m = min(c, n - 1 - c)
+    sl = slice(c - m, c + m + 1)
+    Q = P[sl] if P.ndim == 1 else P[sl, sl]
+    if not np.allclose(Q, Q[::-1] if P.ndim == 1 else Q[::-1, ::-1], rtol=1e-12, atol=1e-15) or (P.ndim == 2 and not np.allclose(Q, Q.T, rtol=1e-12, atol=1e-15)):
+        probs.append("not symmetric about the kernel centre")
+    if probs:
+        ctx.fail(key, desc, "normalised, non-negative PSF centred on and symmetric about entry size//2", "; ".join(probs),
+                 "named PSF is not a centred symmetric normalised blur")
+
+
 def psf1_leaf(T, dim, psf):
+    """custom PSF: as given; Gauss/Moffat: the documented formula (independent of the code); Defocus: leaf of the implementation"""
     if psf[0] == "arr":
         return np.array(psf[1])
     _, name, param, size = psf
-    f = {"gauss": T._GaussPSF_1D, "moffat": T._MoffatPSF_1D, "defocus": T._DefocusPSF_1D}[name.lower()]
-    return np.asarray(f(size if size is not None else dim, param)[0], dtype=float)
+    n = size if size is not None else dim
+    P = doc_psf(name, n, param, 1)
+    if P is not None:
+        return P
+    f = {"defocus": T._DefocusPSF_1D}[name.lower()]
+    return np.asarray(f(n, param)[0], dtype=float)
 
 
 def gen_phantom1(rng, dim):
@@ -516,6 +701,9 @@ def case_deconv1d(ctx, cuqi, T, B1, B2, cfg, sid):
     if psf[0] == "name":
         kw["PSF_param"], kw["PSF_size"] = psf[2], psf[3]
     kw["phantom"] = np.array(ph[1]).astype(dt) if ph[0] == "arr" else ph[1]
+    for k_ in ("PSF", "phantom"):
+        if isinstance(kw[k_], np.ndarray):
+            kw[k_] = relayout(kw[k_], cfg.get("layout"))
     caller = dict(kw)
     if cfg["prior"][1] is not None and isinstance(getattr(cfg["prior"][1], "mean", None), np.ndarray):
         caller["prior.mean"] = cfg["prior"][1].mean
@@ -530,6 +718,8 @@ def case_deconv1d(ctx, cuqi, T, B1, B2, cfg, sid):
             err = None
         except Exception as e:
             tp, err = None, f"{type(e).__name__}: {str(e)[:80]}"
+    if tp is not None:
+        retain_tp("Deconvolution1D", tp)
     # leaves
     try:
         with quiet():
@@ -556,8 +746,22 @@ def case_deconv1d(ctx, cuqi, T, B1, B2, cfg, sid):
     if P is None or x_leaf is None or len(x_leaf) != dim:
         ctx.case("deconv1d-refusal", desc, nontrivial=False)
         if tp is not None:
-            ctx.note(f"constructed although a leaf could not be formed: {desc}")
+            what = "PSF" if P is None else "phantom"
+            ctx.disagree(f"tie:Deconvolution1D:refusal:{what}", desc, "refusal", "constructed", f"unknown / ill-shaped {what} accepted")
+            ctx.fail(f"tie:Deconvolution1D:refusal:{what}", desc, f"an error for an undocumented {what} option", "constructed",
+                     f"the constructor accepts a {what} option that is not one of the documented names / shapes")
         return
+    if psf[0] == "name" and psf[1].lower() in ("gauss", "moffat"):
+        with quiet():
+            try:
+                Pimpl = np.asarray({"gauss": T._GaussPSF_1D, "moffat": T._MoffatPSF_1D}[psf[1].lower()](psf[3] if psf[3] is not None else dim, psf[2])[0], dtype=float)
+            except Exception as e:
+                Pimpl = None
+        if Pimpl is not None:
+            kpsf = f"Deconvolution1D:PSF:{psf[1].lower()}"
+            psf_structure_oracle(ctx, kpsf + ":structure", desc, Pimpl)
+            if Pimpl.shape != P.shape or not np.allclose(Pimpl, P, rtol=1e-12, atol=1e-15):
+                ctx.fail(kpsf + ":formula", desc, list(P[:7]), list(Pimpl[:7]), "named PSF is not the documented profile centred on entry size//2")
     cls = sym_class(P)
     kbase = f"Deconvolution1D:operator"
     lines = [f"dc1 {bc} {dim} {qv(P)}", f"dc1x {bc} {dim} {qv(P)} {qv(x_leaf)}"]
@@ -708,7 +912,8 @@ def case_legacy(ctx, B1, B2, cfg, desc, tp, err, S, x_leaf, sid):
         lines = [f"leg {dim} {qv(psf[1])}"]
         cls = "sym" if all(psf[1][(dim // 2 + d) % dim] == psf[1][(dim // 2 - d) % dim] for d in range(dim)) else "asym"
     else:
-        lines = [f"legh {dim} {qv(A[0, :])}"]     # named kernel: leaf (first row of the matrix)
+        hdoc = doc_legacy_kernel(psf[1], dim, psf[2])
+        lines = [f"legh {dim} {qv(hdoc)}"]         # named kernel: documented formula, independent of the code
         cls = "named"
 
     def cb(outs):
@@ -718,7 +923,7 @@ def case_legacy(ctx, B1, B2, cfg, desc, tp, err, S, x_leaf, sid):
             return
         r = kv(outs[0])
         Aasm, Adoc = fmat(r["asm"], dim), fmat(r["doc"], dim)
-        tol = np.zeros((dim, dim)) if custom else 1e-13
+        tol = np.zeros((dim, dim)) if custom else 1e-12
         if not meq(A, Aasm, tol):
             ctx.disagree("tie:Deconvolution1D:legacy:matrix", desc, r["asm"][:200], str(A.tolist())[:200])
             if not meq(A, Adoc, tol):
@@ -783,6 +988,9 @@ def case_deconv2d(ctx, cuqi, T, B1, B2, cfg, sid):
         kw["PSF"], kw["PSF_param"], kw["PSF_size"] = psf[1], psf[2], psf[3]
     dt = cfg.get("dtype", "float64")
     kw["phantom"] = np.array(ph[1]).reshape(dim, dim).astype(dt) if ph[0] == "arr" else ph[1]
+    for k_ in ("PSF", "phantom"):
+        if isinstance(kw[k_], np.ndarray):
+            kw[k_] = relayout(kw[k_], cfg.get("layout"))
     if psf[0] == "arr" and dt.startswith("int"):     # (a float32 PSF makes scipy's fftconvolve work in single precision: ~1e-8, observation)
         kw["PSF"] = kw["PSF"].astype(dt)
     caller = dict(kw)
@@ -795,6 +1003,17 @@ def case_deconv2d(ctx, cuqi, T, B1, B2, cfg, sid):
             err = None
         except Exception as e:
             tp, err = None, f"{type(e).__name__}: {str(e)[:80]}"
+    if tp is not None:
+        retain_tp("Deconvolution2D", tp)
+    unknown = [w for w, bad in (("PSF", psf[0] == "name" and psf[1].lower() not in ("gauss", "moffat", "defocus")),
+                                ("phantom", ph[0] == "name" and not hasattr(cuqi.data, ph[1].lower().replace("-", "_")))) if bad]
+    if unknown:
+        ctx.case("deconv2d-refusal", desc, nontrivial=False)
+        if tp is not None:
+            ctx.disagree(f"tie:Deconvolution2D:refusal:{unknown[0]}", desc, "refusal", "constructed")
+            ctx.fail(f"tie:Deconvolution2D:refusal:{unknown[0]}", desc, f"an error for an undocumented {unknown[0]} name", "constructed",
+                     f"the constructor accepts a {unknown[0]} name that is not documented")
+        return
     with quiet():
         if psf[0] == "arr":
             P = np.array(psf[1])
@@ -802,7 +1021,15 @@ def case_deconv2d(ctx, cuqi, T, B1, B2, cfg, sid):
             f = {"gauss": lambda s, p: T._GaussPSF(np.array([s, s]), p), "moffat": lambda s, p: T._MoffatPSF(np.array([s, s]), p, 1),
                  "defocus": lambda s, p: T._DefocusPSF(np.array([s, s]), p)}[psf[1].lower()]
             try:
-                P = np.asarray(f(psf[3], psf[2])[0], dtype=float)
+                Pimpl = np.asarray(f(psf[3], psf[2])[0], dtype=float)
+                P = doc_psf(psf[1], psf[3], psf[2], 2)
+                if P is None:
+                    P = Pimpl                      # Defocus: leaf
+                else:
+                    kpsf = f"Deconvolution2D:PSF:{psf[1].lower()}"
+                    psf_structure_oracle(ctx, kpsf + ":structure", desc, Pimpl)
+                    if Pimpl.shape != P.shape or not np.allclose(Pimpl, P, rtol=1e-12, atol=1e-15):
+                        ctx.fail(kpsf + ":formula", desc, str(P.tolist())[:120], str(Pimpl.tolist())[:120], "named PSF is not the documented profile centred on entry size//2")
             except Exception as e:
                 ctx.case("deconv2d-psf-refusal", desc, nontrivial=False)
                 if psf[1].lower() == "defocus" and psf[2] == 0:
@@ -867,7 +1094,7 @@ def case_deconv2d(ctx, cuqi, T, B1, B2, cfg, sid):
             ctx.fail("tie:Deconvolution2D:exactData", desc, outs[1][:160], list(ye[:8]), "exactData is not the documented convolution of the phantom")
         # Miscellaneous
         misc = getattr(tp, "Miscellaneous", None) or {}
-        if "PSF" not in misc or not np.array_equal(np.asarray(misc["PSF"]), P):
+        if "PSF" not in misc or np.asarray(misc["PSF"]).shape != P.shape or not np.allclose(np.asarray(misc["PSF"], dtype=float), P, rtol=1e-12, atol=1e-15):
             ctx.fail("Deconvolution2D:Miscellaneous", desc, "the PSF used", str(misc.get("PSF"))[:100], "Miscellaneous['PSF'] is not the PSF of the model")
         want = f"Noise type: Additive {ntype.capitalize()} with std: {nstd}"
         B2.add([f"cap {ntype}"], lambda o: (ctx.disagree("tie:Deconvolution2D:infoString", desc, o[0], tp.infoString),
@@ -996,6 +1223,7 @@ def case_poisson(ctx, cuqi, B1, B2, cfg, sid):
     if tp is None:
         ctx.note(f"Poisson1D refused {desc}: {err}")
         return
+    retain_tp("Poisson1D", tp)
     # leaf grids, by the code's own expressions (the source is sampled on `grid`, the solution is said to live on
     # `grid_range`; for endpoint != 1 the two differ and neither is the set of nodes of the difference scheme —
     # recorded as an observation in docs/C17.md, the documentation does not fix the nodes)
@@ -1013,6 +1241,26 @@ def case_poisson(ctx, cuqi, B1, B2, cfg, sid):
     xs = A1(tp.exactSolution)
     tests = [("exact", xs)] + [("kappa", k) for k in kappas]
     lines = [f"poisson {N} {q(dxF)} {qv(k)} {qv(rhs)} {','.join(str(i) for i in obs_idx) if obs_idx else '_'}" for _, k in tests]
+    obs_s_ = ','.join(str(i) for i in obs_idx) if obs_idx else '_'
+    if field[0] == "none":
+        # G5: ONE caller-owned buffer, modified in place between evaluations (as when probing the model column by column);
+        # afterwards a fresh array holding earlier values.  Every evaluation must be the solution map at the CURRENT values.
+        with quiet():
+            try:
+                xb = kappas[0].copy()
+                g0 = A1(tp.model.forward(xb)).copy()
+                xb[1] += 0.5
+                g1 = A1(tp.model.forward(xb)).copy(); x1 = xb.copy()
+                xb[:] = kappas[1]
+                g2 = A1(tp.model.forward(xb)).copy()
+                g3 = A1(tp.model.forward(x1.copy())).copy()
+                xb[:] = kappas[0]; xb[-1] *= 2
+                g4 = A1(tp.model.forward(xb, is_par=False)).copy(); x4 = xb.copy()
+                for nm_, kv_, g_ in (("inplace-0", kappas[0], g0), ("inplace-1", x1, g1), ("inplace-2", kappas[1], g2), ("inplace-3-fresh", x1, g3), ("inplace-4", x4, g4)):
+                    tests.append((nm_, kv_.copy(), None, g_))
+                    lines.append(f"poisson {N} {q(dxF)} {qv(kv_)} {qv(rhs)} {obs_s_}")
+            except Exception as e:
+                ctx.note(f"Poisson in-place history raised at {desc}: {repr(e)[:80]}")
     # forward through parameters (geometry maps are leaves: par2fun of the implementation)
     with quiet():
         p = np.round(rs.randn(tp.model.domain_dim) * 2) / 4.0
@@ -1044,7 +1292,7 @@ def case_poisson(ctx, cuqi, B1, B2, cfg, sid):
             sols.append(u)
             with quiet():
                 try:
-                    got = A1(tp.model.forward(t[2])) if t[0] == "par" else A1(tp.model.forward(t[1], is_par=False))
+                    got = t[3] if t[0].startswith("inplace") else (A1(tp.model.forward(t[2])) if t[0] == "par" else A1(tp.model.forward(t[1], is_par=False)))
                 except Exception as e:
                     got = None
                     ctx.note(f"Poisson forward raised at {d}: {repr(e)[:80]}")
@@ -1097,6 +1345,7 @@ def case_heat(ctx, cuqi, B1, B2, cfg, sid):
     if tp is None:
         ctx.note(f"Heat1D refused {desc}: {err}")
         return
+    retain_tp("Heat1D", tp)
     dxF = Fraction(ep) / (N + 1)
     grid = np.array([float(dxF * k) for k in range(1, N + 1)])
     obs_idx = list(range(N))
@@ -1118,6 +1367,21 @@ def case_heat(ctx, cuqi, B1, B2, cfg, sid):
         # step count: `heat` (model decides it) unless max_time/(cfl dx^2) is an integer up to rounding, then `heatk`
         return f"heat {N} {q(ep)} {q(mt)} {qv(u0)} {obs_s}" if not near_int else f"heatk {N} {q(dxF)} {q(dtF)} {k_impl} {qv(u0)} {obs_s}"
     lines = [hline(u0) for _, u0 in tests]
+    if field[0] == "none":
+        with quiet():
+            try:
+                xb = tests[1][1].copy()
+                g0 = A1(tp.model.forward(xb)).copy()
+                xb[0] += 0.5
+                g1 = A1(tp.model.forward(xb)).copy(); x1 = xb.copy()
+                xb[:] = tests[2][1]
+                g2 = A1(tp.model.forward(xb)).copy()
+                g3 = A1(tp.model.forward(x1.copy())).copy()
+                for nm_, kv_, g_ in (("inplace-0", tests[1][1], g0), ("inplace-1", x1, g1), ("inplace-2", tests[2][1], g2), ("inplace-3-fresh", x1, g3)):
+                    tests.append((nm_, kv_.copy(), None, g_))
+                    lines.append(hline(kv_))
+            except Exception as e:
+                ctx.note(f"Heat in-place history raised at {desc}: {repr(e)[:80]}")
     with quiet():
         p = np.round(rs.randn(tp.model.domain_dim) * 2) / 4.0
         try:
@@ -1152,7 +1416,7 @@ def case_heat(ctx, cuqi, B1, B2, cfg, sid):
             sols.append(u)
             with quiet():
                 try:
-                    got = A1(tp.model.forward(t[2])) if t[0] == "par" else A1(tp.model.forward(t[1], is_par=False))
+                    got = t[3] if t[0].startswith("inplace") else (A1(tp.model.forward(t[2])) if t[0] == "par" else A1(tp.model.forward(t[1], is_par=False)))
                 except Exception as e:
                     got = None
                     ctx.note(f"Heat forward raised at {d}: {repr(e)[:80]}")
@@ -1199,6 +1463,7 @@ def case_abel(ctx, cuqi, B1, B2, cfg, sid):
     if tp is None:
         ctx.note(f"Abel1D refused {desc}: {err}")
         return
+    retain_tp("Abel1D", tp)
 
     def cb(outs):
         r = kv(outs[0])
@@ -1260,6 +1525,7 @@ def case_wang(ctx, cuqi, B1, B2, cfg, sid):
     before = snap_arrays(kw)
     with scripted(sid) as S, quiet():
         tp = WangCubic(**kw)
+    retain_tp("WangCubic", tp)
     dval = None if dopt is None else (float(dopt[1][0]) if dopt[0] in ("arr", "iarr") else float(dopt[1]))
     rs = np.random.RandomState(sid + 5)
     pts = [np.round(rs.randn(2) * 4) / 4.0 for _ in range(3)] + [np.array([1.0, 0.0]), np.array([0.0, 0.0])]
@@ -1490,6 +1756,119 @@ def run(ctx):
                 raise
             ctx.fail(f"{name_}:history:crash", {"problem": name_, **d_}, "the call history runs", repr(e)[:160], "a call history on a test problem raised")
 
+    # ---- named PSFs of ODD and even size (explicit PSF_size, default PSF_size = dim with odd and even dim), every BC:
+    #      the documented profile is independent of the code (doc_psf), plus structure clauses (centred, symmetric, normalised)
+    for nm_ in ("Gauss", "Moffat"):
+        for (dim_, size_, par_) in ((9, None, None), (8, None, 2.0), (7, 7, 1.5), (10, 7, None), (10, 4, 1.0), (11, 5, 0.75), (6, 3, 3.0), (33, None, None)):
+            case_deconv1d(ctx, cuqi, T, B1, B2, dict(dim=dim_, psf=("name", nm_, par_, size_), bc=BC1[(dim_ + len(nm_)) % 5], phantom=("arr", [float((3 * i) % 7 - 2) for i in range(dim_)]),
+                                                    noise_type="gaussian", noise_std=0.25, prior=("none", None)), nid())
+        for (dim_, size_, par_) in ((4, 3, 2.56), (5, 5, 1.0), (4, 4, 1.0), (5, 1, 2.0), (3, 7, 2.0)):
+            case_deconv2d(ctx, cuqi, T, B1, B2, dict(dim=dim_, psf=("name", nm_, par_, size_), bc=BC2[(dim_ + size_) % 5], phantom=("arr", [float((3 * i) % 7 - 2) for i in range(dim_ * dim_)]),
+                                                    noise_type="gaussian", noise_std=0.25, prior=("none", None)), nid())
+    for (dim_, nm_, par_) in ((6, "gauss", None), (10, "Gauss", 3.0), (8, "sinc", None), (6, "prolate", 4.0), (12, "vonMises", None), (8, "vonmises", 2.0)):
+        case_deconv1d(ctx, cuqi, T, B1, B2, dict(dim=dim_, psf=("name", nm_, par_, None), bc="periodic", phantom=("arr", [float((3 * i) % 7 - 2) for i in range(dim_)]),
+                                                noise_type="gaussian", noise_std=0.25, prior=("none", None), legacy=True), nid())
+    # ---- names that are substrings / superstrings of documented names must be refused (exact matching)
+    for bad in (dict(psf=("name", "gaussian", None, 3)), dict(psf=("name", "gaus", None, 3)), dict(psf=("name", "moffatt", None, 3)), dict(bc="periodicx"), dict(bc="zer"),
+                dict(bc="reflected"), dict(noise_type="gauss"), dict(noise_type="scaled"), dict(noise_type="gaussians"), dict(phantom=("name", "sin", None)),
+                dict(phantom=("name", "squares", None)), dict(phantom=("name", "gaussian", None))):
+        c = dict(dim=6, psf=("arr", [1.0, 2.0, 1.0]), bc="zero", phantom=("arr", [1.0, 2, 3, 1, 2, 3]), noise_type="gaussian", noise_std=0.25, prior=("none", None))
+        c.update(bad)
+        case_deconv1d(ctx, cuqi, T, B1, B2, c, nid())
+    for bad in (dict(psf=("name", "sincx", None, None)), dict(psf=("name", "gaussian", None, None)), dict(psf=("name", "von", None, None))):
+        case_deconv1d(ctx, cuqi, T, B1, B2, dict(dim=6, bc="periodic", phantom=("arr", [1.0, 2, 3, 1, 2, 3]), noise_type="gaussian", noise_std=0.25, prior=("none", None), legacy=True, **bad), nid())
+    for bad in (dict(psf=("name", "gaussian", 1.0, 3)), dict(psf=("name", "defocused", 1.0, 3)), dict(bc="neumannx"), dict(bc="zer"), dict(noise_type="scaled"), dict(phantom=("name", "cookies"))):
+        c = dict(dim=3, psf=("arr", [[1.0]]), bc="zero", phantom=("arr", [1.0] * 9), noise_type="gaussian", noise_std=0.25, prior=("none", None))
+        c.update(bad)
+        case_deconv2d(ctx, cuqi, T, B1, B2, c, nid())
+
+    # ---- G7: constructor arrays in other memory layouts (same numbers => same problem)
+    for lay in ("strided", "negstride", "readonly", "fortran", "transposed-view"):
+        case_deconv1d(ctx, cuqi, T, B1, B2, dict(dim=6, psf=("arr", [1.0, 2.0, 4.0]), bc="reflect", phantom=("arr", [1.0, 3, 0, -2, 5, 1]), noise_type="scaledGaussian", noise_std=0.25,
+                                                prior=("none", None), layout=lay), nid())
+        case_deconv2d(ctx, cuqi, T, B1, B2, dict(dim=3, psf=("arr", [[0.0, 1, 0], [2, 3, 1], [0, 4, 0]]), bc="neumann", phantom=("arr", [float(i + 1) for i in range(9)]),
+                                                noise_type="gaussian", noise_std=0.25, prior=("none", None), layout=lay), nid())
+
+    # ---- G5/G7/G8: evaluation histories of model.forward (reused in-place modified buffers, layouts, zeros), vs fresh problems
+    fh = [
+        ("Poisson1D", {"dim": 6}, _b(_P1, 21, dim=6, SNR=50), [2.0, 1, 3, 2, 4, 1], True, False),
+        ("Poisson1D", {"dim": 6, "is_par": False}, _b(_P1, 22, dim=6, endpoint=2.0, SNR=50), [2.0, 1, 3, 2, 4, 1], False, False),
+        ("Poisson1D", {"dim": 7, "field": "Step"}, _b(_P1, 23, dim=7, field_type="Step", field_params={"n_steps": 3}, SNR=50), [2.0, 1, 3], True, False),
+        ("Poisson1D", {"dim": 6, "obs": "shift"}, _b(_P1, 24, dim=6, SNR=50, observation_grid_map=obs_map("shift", 1)), [2.0, 1, 3, 2, 4, 1], True, False),
+        ("Heat1D", {"dim": 5}, _b(_H1, 25, dim=5, SNR=50), [1.0, 0, 2, -1, 3], True, True),
+        ("Heat1D", {"dim": 6, "field": "Step"}, _b(_H1, 26, dim=6, field_type="Step", field_params={"n_steps": 2}, SNR=50), [1.0, 2], True, True),
+        ("Abel1D", {"dim": 5}, _b(_A1, 27, dim=5, SNR=50), [1.0, 0, 2, -1, 3], True, True),
+        ("Deconvolution1D", {"dim": 6}, _b(_D1, 28, dim=6, PSF=np.array([1.0, 2, 4]), BC="zero", phantom=np.arange(6.0), noise_std=0.25), [1.0, 0, 2, -1, 3, 1], True, True),
+        ("Deconvolution1D", {"dim": 6, "legacy": True}, _b(_D1, 29, dim=6, use_legacy=True, phantom=np.arange(6.0), noise_std=0.25), [1.0, 0, 2, -1, 3, 1], True, True),
+        ("Deconvolution2D", {"dim": 3}, _b(_D2, 30, dim=3, PSF=np.array([[0.0, 1, 0], [2, 3, 1], [0, 4, 0]]), BC="neumann", phantom=np.arange(9.0).reshape(3, 3), noise_std=0.25),
+         [1.0, 0, 2, -1, 3, 1, 0, 2, 1], True, True),
+        ("WangCubic", {}, _b(_WC, 31, data=0, noise_std=0.5), [1.0, -2.0], True, False),
+    ]
+    for name_, d_, build_, x0_, ispar_, lin_ in fh:
+        check_forward_history(ctx, name_, {"problem": name_, **d_}, build_, x0_, is_par=ispar_, linear=lin_)
+
+    # ---- user callables that reuse ONE output buffer (map / source / observation map): same results as fresh outputs
+    _buf = {"m": None}
+    def _map_shared(x):
+        if _buf["m"] is None or _buf["m"].shape != np.shape(x):
+            _buf["m"] = np.empty(np.shape(x))
+        np.exp(x, out=_buf["m"])
+        return _buf["m"]
+    for cls_, nm_, kw_ in ((_P1, "Poisson1D", dict(dim=6, SNR=50)), (_H1, "Heat1D", dict(dim=5, SNR=50))):
+        ba, bb = _b(cls_, 41, map=_map_shared, imap=np.log, **kw_), _b(cls_, 41, map=(lambda x: np.exp(x)), imap=np.log, **kw_)
+        with quiet():
+            ta, tb = ba(), bb()
+        d_ = {"problem": nm_, "map": "writes into one shared buffer", **{k: v for k, v in kw_.items()}}
+        ctx.case("shared-buffer-callable", d_)
+        pts_ = [np.array([0.5, -0.25, 0.0, 0.25, 1.0, -0.5][:ta.model.domain_dim]), np.zeros(ta.model.domain_dim), np.array([0.25] * ta.model.domain_dim)]
+        outs_a = []
+        with quiet():
+            for x_ in pts_:
+                ya = ta.model.forward(x_); outs_a.append((ya, A1(ya).copy())); retain(f"{nm_}|forward(shared-map)", ya)
+        for x_, (ya, ya0) in zip(pts_, outs_a):
+            with quiet():
+                yb = A1(tb.model.forward(x_.copy()))
+            if not vrel(ya0, yb, 1e-10) or not np.array_equal(A1(ya), ya0):
+                ctx.fail(f"{nm_}:history:forward:shared-buffer-callable", {**d_, "x": [float(v) for v in x_]}, list(yb[:6]), list(A1(ya)[:6]),
+                         "with a map that reuses one output buffer an (earlier) forward result differs from that with a map returning fresh arrays")
+        if not (vrel(A1(ta.exactData), A1(tb.exactData), 1e-12) and vrel(A1(ta.data), A1(tb.data), 1e-12)):
+            ctx.fail(f"{nm_}:history:construction:shared-buffer-callable", d_, list(A1(tb.exactData)[:6]), list(A1(ta.exactData)[:6]), "exactData/data depend on the map reusing its buffer")
+
+    # ---- positional vs keyword passing of the optional constructor arguments (documented / pinned parameter order)
+    _P = np.array([1.0, 2.0, 4.0]); _ph = np.array([1.0, 3, 0, -2, 5, 1]); _ph2 = np.arange(1.0, 10).reshape(3, 3); _P2 = np.array([[0.0, 1, 0], [2, 3, 1], [0, 4, 0]])
+    _src = lambda xs: 1.0 + 2.0 * xs
+    _om = obs_map("even", 1)
+    pos = [
+        ("Deconvolution1D", _D1, (6, _P, None, None, "reflect", _ph, None, "scaledGaussian", 0.5, None, False),
+         ("dim", "PSF", "PSF_param", "PSF_size", "BC", "phantom", "phantom_param", "noise_type", "noise_std", "prior", "use_legacy")),
+        ("Deconvolution1D", _D1, (7, "Moffat", 1.5, 5, "nearest", "pc", None, "gaussian", 0.125),
+         ("dim", "PSF", "PSF_param", "PSF_size", "BC", "phantom", "phantom_param", "noise_type", "noise_std")),
+        ("Deconvolution2D", _D2, (3, _P2, 2.56, 21, "neumann", _ph2, "scaledGaussian", 0.5, None), ("dim", "PSF", "PSF_param", "PSF_size", "BC", "phantom", "noise_type", "noise_std", "prior")),
+        ("Poisson1D", _P1, (7, 2.0, _src, "Step", {"n_steps": 3}, None, None, 20, _om, None),
+         ("dim", "endpoint", "source", "field_type", "field_params", "map", "imap", "SNR", "observation_grid_map", "exactSolution")),
+        ("Heat1D", _H1, (6, 0.5, 0.05, "Step", {"n_steps": 2}, None, None, 20, np.array([0.0, 1, 0, 2, 0, 1]), _om),
+         ("dim", "endpoint", "max_time", "field_type", "field_params", "map", "imap", "SNR", "exactSolution", "observation_grid_map")),
+        ("Abel1D", _A1, (5, 2.0, "Step", {"n_steps": 2}, None, None, 20), ("dim", "endpoint", "field_type", "field_params", "KL_map", "KL_imap", "SNR")),
+        ("WangCubic", _WC, (0.5, None, 0.0), ("noise_std", "prior", "data")),
+    ]
+    for name_, cls_, args_, names_ in pos:
+        d_ = {"problem": name_, "positional": [str(a)[:20] for a in args_]}
+        ctx.case("positional-vs-keyword", d_)
+        with quiet():
+            try:
+                with scripted(51):
+                    ta = cls_(*[a.copy() if isinstance(a, np.ndarray) else a for a in args_])
+                with scripted(51):
+                    tb = cls_(**{k: (a.copy() if isinstance(a, np.ndarray) else a) for k, a in zip(names_, args_)})
+            except Exception as e:
+                ctx.fail(f"{name_}:positional:raises", d_, "both calling conventions construct the problem", repr(e)[:120], "positional or keyword construction raised")
+                continue
+        sa, sb = tp_snapshot(ta), tp_snapshot(tb)
+        diff = [k for k in sa if sa[k] != sb.get(k)]
+        if diff:
+            ctx.fail(f"{name_}:positional:{diff[0]}", {**d_, "differs": diff}, "the same problem from positional and keyword arguments", diff,
+                     "optional arguments passed by position give a different problem than the same arguments passed by keyword (pinned parameter order)")
+
     # ---- signed PSFs (negative, mixed-sign, tiny +-1e-14 next to O(1), zero-sum, all-negative), every BC, odd/even sizes:
     #      custom PSFs are used as given (no normalisation, no thresholding) — compared entry by entry, exactly in 1-D
     dog = [float(v) for v in np.round((np.exp(-0.5 * (np.arange(-3, 4) / 1.0) ** 2) - 0.6 * np.exp(-0.5 * (np.arange(-3, 4) / 2.0) ** 2)) * 64) / 64]
@@ -1583,6 +1962,8 @@ def run(ctx):
 
     B1.run(ctx)
     B2.run(ctx)
+
+    verify_retained(ctx)
 
     # malformed protocol lines: the driver must not default
     bad = ["dc1 zero x 1,2", "leg 8", "noise gaussian 1/0 1 1", "poisson 3 0 1,1,1,1 1,1,1 0", "comp Foo", "heat 3 1 1/5 1,2 0", "wang 1", ""]
